@@ -8,6 +8,9 @@ EXTENDS MCGen
 OpsV == {"GoNew", "Sentinel", "Errno", "New", "ULeaf", "UIs", "Wrap", "WithMessage", "WithStack",
          "WithDomain", "Mark", "Handled", "GoWrap", "PkgWithMessage", "UWrap", "Join", "GoJoin",
          "WithHint", "Hop"}
+\* restricted instance: chains whose type sequence is a strict prefix of another's
+OpsPrefix == {"GoNew", "ULeaf", "UWrap", "WithStack", "Mark"}
+ShapesPrefix == {<<"w2">>, <<"w1", "SEP", "w2">>}
 ShapesV == {<<"w1">>, <<"w1", "SEP", "w2">>}
 Shapes2V == {<<"w1">>, <<"w2">>}
 =============================================================================
